@@ -33,8 +33,6 @@ STARTS = z3.Function("str_startswith", I, I, B)
 ENDS = z3.Function("str_endswith", I, I, B)
 REG.external("dir", "dir(cls): pairwise distinct names, each resolvable on the class (language reference: object.__dir__)")
 REG.external("inspect.getattr_static", "the raw namespace entry along the MRO, without invoking descriptors")
-REG.external("_checkers._decorate_with_invariants / _decorate_new_with_invariants",
-             "assumed contract: func itself if already an invariant checker, else a fresh function w, w.__wrapped__ == func, marked as an invariant checker of the requested kind")
 
 EXEMPT = ["__new__", "__repr__", "__getattribute__"]
 # ghost state: the names selected so far as methods / as properties (updated where the code appends to its two lists)
@@ -82,8 +80,12 @@ ArrII_ = z3.ArraySort(I, I)
 
 
 def is_checker(st, w, f, is_init):
-    """w is what _decorate_with_invariants(func=f, is_init) returns."""
-    fresh_w = z3.And(attr(st, w, "__wrapped__") == f, attr(st, w, "__is_invariant_check__") == TRUE, attr(st, w, "inv_is_init") == (TRUE if is_init else FALSE))
+    """w is what _decorate_with_invariants(func=f, is_init) returns (its proved contract, specs/invfactory.py): f itself if it
+    already checks invariants, else a fresh function wrapping f which is the closure for this kind of member -- closure 0
+    (constructor), 1 (async method) or 2 (method)."""
+    from pyvc.registry import IS_COROFN
+    which = z3.IntVal(0) if is_init else z3.If(IS_COROFN(f), z3.IntVal(1), z3.IntVal(2))
+    fresh_w = z3.And(attr(st, w, "__wrapped__") == f, attr(st, w, "__is_invariant_check__") == TRUE, attr(st, w, "__defidx__") == which, attr(st, w, "env:func") == f)
     return z3.If(ALREADY(f), w == f, fresh_w)
 
 
@@ -176,8 +178,9 @@ class AddInvariantChecks(FnSpec):
 
         def modifies(self, c):
             b, k = c.entry.ctr, self.spec.cls  # attributes are written on objects allocated in this loop only
-            return [("ddom", k), ("dval", k), ("dord", k)] + [(f, (lambda r: r >= b)) for f in ("attr:__wrapped__", "attr:__is_invariant_check__", "attr:inv_is_init",
-                                                                                              "attr:fget", "attr:fset", "attr:fdel")]
+            return [("ddom", k), ("dval", k), ("dord", k)] + [(f, (lambda r: r >= b)) for f in ("attr:__wrapped__", "has:__wrapped__", "attr:__is_invariant_check__", "attr:__defidx__",
+                                                                                              "attr:__def__", "attr:env:func", "attr:env:param_names", "attr:env:new_func",
+                                                                                              "attr:fget", "attr:fset", "attr:fdel", "list")]
 
         def inv(self, c):
             sp, st, E = self.spec, c.st, c.entry
@@ -243,39 +246,17 @@ class AddInvariantChecks(FnSpec):
 
     def decorate(self, is_new):
         def h(ex, st, node, args, kwargs):
-            f = ex.to_ref(st, kwargs.get("func") or kwargs.get("new_func") or args[0])
-            if is_new:
-                is_init = None
-            else:
-                b = kwargs["is_init"]
-                is_init = bool(b.py) if b.kind == "static" else z3.is_true(z3.simplify(b.t))
-            out = []
-            for s, already in ex.fork(st, ALREADY(f), "already_decorated"):
-                if already:
-                    out.append((s, V("ref", f, None)))
-                    continue
-                if not is_new:
-                    for s2, bad in ex.fork(s, SIG_RAISES(f), "signature_raises"):
-                        if bad:
-                            e = fresh("exc_sig")
-                            s2.assume(e > 2)
-                            ex.user_exception_facts(s2, e)
-                            out.append((s2, Raise(e)))
-                        else:
-                            out.append(self._fresh_checker(ex, s2, f, is_init))
-                else:
-                    out.append(self._fresh_checker(ex, s, f, None))
+            # the factories are under contract (specs/invfactory.py): the call site sees their contracts only
+            from pyvc.engine import apply_contract
+            from pyvc import extract
+            from .invfactory import DWI, DNWI
+            spec = DNWI if is_new else DWI
+            out = apply_contract(spec, extract.get_unit(spec.addr).node)(ex, st, node, args, kwargs)
+            for s_, r in out:
+                if isinstance(r, V):
+                    s_.assume(ISFUNCTION(r.t), z3.Not(ISPROPERTY(r.t)), z3.Not(isslot(r.t)))  # (a function, old or new)
             return out
         return h
-
-    @staticmethod
-    def _fresh_checker(ex, s, f, is_init):
-        w = s.alloc(T_FUNC, "invchk")
-        s.put("attr:__wrapped__", w, f)
-        s.put("attr:__is_invariant_check__", w, TRUE)
-        s.put("attr:inv_is_init", w, NONE if is_init is None else (TRUE if is_init else FALSE))
-        s.assume(ISFUNCTION(w), z3.Not(ISPROPERTY(w)), z3.Not(isslot(w)), ALREADY(w))
-        return (s, V("ref", w, None))
 
     def property_call(self, ex, st, node, args, kwargs):
         o = st.alloc(T_OBJ, "property")
